@@ -28,6 +28,25 @@
 (*    alerts live in memory only (lost by stop / kill, re-posted by the     *)
 (*    environment);                                                         *)
 (*  - start order: any; positions change when peers come and go.            *)
+(*  - configuration reloads of a running instance (POST /-/reload, SIGHUP):  *)
+(*    the file is rewritten with configuration c of one of the kinds          *)
+(*      "good"      accepted: dispatcher, pipeline and API switch to c,      *)
+(*      "badload"   refused by config.Load (syntax / semantic error),        *)
+(*      "badapply"  loads, but is refused while being applied in             *)
+(*                  app/reloader.go (receiver integrations or tracing that    *)
+(*                  cannot be built: a tls ca_file that does not exist);      *)
+(*    a refused reload leaves everything as it was (all fallible steps come   *)
+(*    before the old dispatcher is stopped and before the API is updated).    *)
+(*    Configurations differ observably: c routes every alert to receiver      *)
+(*    hook-c (webhook path /hook/c; the notification log is keyed by the      *)
+(*    receiver), which the status text and the API's receivers name.          *)
+(*      RL = "safe":      the program                                         *)
+(*      RL = "stopfirst": the last fallible step comes after the old          *)
+(*                        dispatcher was stopped (seeded C17-5): a reload     *)
+(*                        refused there leaves NO dispatcher                  *)
+(*      RL = "apifirst":  the API is updated before the fallible steps        *)
+(*                        (seeded C07-4): after a reload refused at apply     *)
+(*                        time the API answers from the refused configuration *)
 (* One alert per group; a delivery to the webhook always succeeds.          *)
 (* Off names wiring that a defective assembly leaves out (each must make    *)
 (* one property fail, MC_AppSys_*.cfg): "stopsnap" the snapshot at a clean  *)
@@ -58,7 +77,10 @@ CONSTANTS Inst,       \* instances, a set of naturals (peer names sort like the 
           Quantum, MaxTime,
           Rule,       \* "sum" | "defective"
           Off,        \* wiring left out, a subset of {"stopsnap", "nflgossip", "settle"}; {} = the program
-          Lim         \* [start, stop, kill, post, sil, exp |-> bound on the number of such operations]
+          Cfgs,       \* configurations, e.g. {"A", "B"}; every instance starts with InitCfg
+          InitCfg,
+          RL,         \* "safe" | "stopfirst" | "apifirst"
+          Lim         \* [start, stop, kill, post, sil, exp, rl |-> bound on the number of such operations]
 
 VARIABLES now,
           life,    \* i -> "new" | "up" | "down"
@@ -68,24 +90,33 @@ VARIABLES now,
           sv,      \* i -> alert -> 0 no silence, 1 active silence, 2 expired silence (3 in traces: not yet observed)
           due,     \* i -> alert -> next flush tick of the group, NONE: no group
           pend,    \* i -> alert -> flush in progress
-          nfl,     \* i -> alert -> timestamp of the notification log entry, NONE
+          nfl,     \* i -> alert -> receiver (= configuration) -> timestamp of the notification log entry, NONE
+          cfg,     \* i -> configuration of the running dispatcher / pipeline, "none": no dispatcher
+          api,     \* i -> configuration the API answers from (status text)
+          file,    \* i -> [c, kind]: content of the configuration file
           snapN, snapS,  \* data directory: last snapshot of nfl / sv
           mt,      \* i -> next maintenance
           net,     \* gossip in flight
           cnt, last,
           \* ---- observation and bookkeeping (shared with the trace specification)
           pos,     \* i -> position among the members it sees
-          sent,    \* deliveries: [i, a, t, g, owe, rep]
+          rcv, grp, \* i -> configuration named by the receivers of GET /api/v2/alerts / of the dispatcher's groups ("-": nothing to show)
+          sent,    \* deliveries: [i, a, c, t, g, owe, rep, ok]
           gen,     \* i -> number of starts
           since,   \* i -> alert -> start of the current interval in which i is up, ready, has a unsilenced, at one position; NONE
           owe,     \* i -> alert -> [lvl, t]: silence acknowledged by i (1: in this generation, 2: before a restart that had to keep it)
-          told,    \* i -> alert -> [t, g]: i's last delivery that its data directory has to remember
+          told,    \* i -> alert -> [t, g, c]: i's last delivery that its data directory has to remember
+          inforce, \* i -> configuration that has to be in force: the start's or the last ACCEPTED reload's
+          prevc, chg, \* i -> the configuration in force before, and when it was replaced
+          lastrl,  \* i -> "none" | "good" | "rejected": outcome of the last reload request
           healthy, \* no stop / kill / late start so far, every post found all instances up and ready
           posted, expired
 
-core == <<now, life, upAt, rdy, has, sv, due, pend, nfl, snapN, snapS, mt, net, cnt, last>>
-bk   == <<sent, gen, owe, told, healthy, posted, expired>>
-vars == <<core, bk, pos, since>>
+rlv  == <<cfg, api, file>>
+bkr  == <<inforce, prevc, chg, lastrl>>
+core == <<now, life, upAt, rdy, has, sv, due, pend, nfl, snapN, snapS, mt, net, cnt, last, rlv>>
+bk   == <<sent, gen, owe, told, healthy, posted, expired, bkr>>
+vars == <<core, bk, pos, since, rcv, grp>>
 
 NONE == 0 - 1
 Max(x, y) == IF x > y THEN x ELSE y
@@ -93,11 +124,12 @@ SetMin(S) == CHOOSE x \in S : \A y \in S : x <= y
 Up == {i \in Inst : life[i] = "up"}
 Idle == [st |-> "idle", dl |-> 0, at |-> 0, tick |-> 0]
 NoOwe == [lvl |-> 0, t |-> 0]
-NoTold == [t |-> NONE, g |-> 0]
+NoTold == [t |-> NONE, g |-> 0, c |-> "-"]
+NoLog == [a \in Alerts |-> [c \in Cfgs |-> NONE]]
 
 \* parameters of the model itself: exact, no tolerance
 P == [gw |-> GW, gi |-> GI, ri |-> RI, pt |-> PT, st |-> ST, mint |-> MinT,
-      slack |-> 0, rslack |-> 0, dupmin |-> [a \in Alerts |-> MaxDelay], dupmax |-> RI, repmax |-> RI, late |-> 0]
+      slack |-> 0, rslack |-> 0, dupmin |-> [a \in Alerts |-> MaxDelay], dupmax |-> RI, repmax |-> RI, late |-> 0, rltol |-> 0]
 
 -----------------------------------------------------------------------------
 (* the wiring of app.setup *)
@@ -109,21 +141,28 @@ PosOf(l, i) == Cardinality({j \in Inst : l[j] = "up" /\ j < i})
 (* bookkeeping steps; t = instant, p = parameters *)
 BkSame == UNCHANGED bk
 
-BkSend(i, a, t, p) ==
-  /\ sent' = Append(sent, [i |-> i, a |-> a, t |-> t, g |-> gen[i], owe |-> owe[i][a].lvl,
-                           rep |-> /\ told[i][a].t # NONE /\ told[i][a].g < gen[i]
-                                   /\ t - told[i][a].t <= p.repmax])
-  /\ told' = [told EXCEPT ![i][a] = [t |-> t, g |-> gen[i]]]
-  /\ UNCHANGED <<gen, owe, healthy, posted, expired>>
+\* a delivery by i of alert a to receiver hook-c.  ok: c is the configuration that has to be in force
+\* (or was until rltol ago: a flush in flight when the accepted reload came)
+BkSend(i, a, c, t, p) ==
+  /\ sent' = Append(sent, [i |-> i, a |-> a, c |-> c, t |-> t, g |-> gen[i], owe |-> owe[i][a].lvl,
+                           rep |-> /\ told[i][a].t # NONE /\ told[i][a].g < gen[i] /\ told[i][a].c = c
+                                   /\ t - told[i][a].t <= p.repmax,
+                           ok |-> c = inforce[i] \/ (c = prevc[i] /\ t - chg[i] <= p.rltol)])
+  /\ told' = [told EXCEPT ![i][a] = [t |-> t, g |-> gen[i], c |-> c]]
+  /\ UNCHANGED <<gen, owe, healthy, posted, expired, bkr>>
 
 \* keepN / keepS: the alerts whose log entry / silence the data directory surely holds
 BkDown(i, keepN, keepS) ==
   /\ told' = [told EXCEPT ![i] = [a \in Alerts |-> IF a \in keepN THEN told[i][a] ELSE NoTold]]
   /\ owe' = [owe EXCEPT ![i] = [a \in Alerts |-> IF a \in keepS THEN owe[i][a] ELSE NoOwe]]
   /\ healthy' = FALSE
-  /\ UNCHANGED <<sent, gen, posted, expired>>
+  /\ UNCHANGED <<sent, gen, posted, expired, bkr>>
 
-BkStart(i) ==
+BkStart(i, c) ==
+  /\ inforce' = [inforce EXCEPT ![i] = c]
+  /\ prevc' = [prevc EXCEPT ![i] = c]
+  /\ lastrl' = [lastrl EXCEPT ![i] = "none"]
+  /\ UNCHANGED chg
   /\ gen' = [gen EXCEPT ![i] = @ + 1]
   /\ owe' = [owe EXCEPT ![i] = [a \in Alerts |-> IF owe[i][a].lvl = 1 THEN [owe[i][a] EXCEPT !.lvl = 2] ELSE owe[i][a]]]
   /\ healthy' = (healthy /\ ~posted)
@@ -132,23 +171,35 @@ BkStart(i) ==
 BkPost(allready) ==
   /\ posted' = TRUE
   /\ healthy' = (healthy /\ allready)
-  /\ UNCHANGED <<sent, gen, owe, told, expired>>
+  /\ UNCHANGED <<sent, gen, owe, told, expired, bkr>>
 
 BkAck(i, a, t) ==
   /\ owe' = [owe EXCEPT ![i][a] = [lvl |-> 1, t |-> t]]
-  /\ UNCHANGED <<sent, gen, told, healthy, posted, expired>>
+  /\ UNCHANGED <<sent, gen, told, healthy, posted, expired, bkr>>
 
 BkExpire(a) ==
   /\ expired' = expired \cup {a}
   /\ owe' = [i \in Inst |-> [owe[i] EXCEPT ![a] = NoOwe]]
-  /\ UNCHANGED <<sent, gen, told, healthy, posted>>
+  /\ UNCHANGED <<sent, gen, told, healthy, posted, bkr>>
 
-\* the eligibility clock, from the state after the step (pos' is given)
+\* a reload request for configuration c has been answered (accepted or refused)
+BkReload(i, c, accepted, t) ==
+  /\ lastrl' = [lastrl EXCEPT ![i] = IF accepted THEN "good" ELSE "rejected"]
+  /\ IF accepted /\ c # inforce[i]
+       THEN /\ inforce' = [inforce EXCEPT ![i] = c]
+            /\ prevc' = [prevc EXCEPT ![i] = inforce[i]]
+            /\ chg' = [chg EXCEPT ![i] = t]
+       ELSE UNCHANGED <<inforce, prevc, chg>>
+  /\ healthy' = FALSE
+  /\ UNCHANGED <<sent, gen, owe, told, posted, expired>>
+
+\* the eligibility clock, from the state after the step (pos' is given); it starts again when
+\* another configuration comes into force
 Elig(l, r, h, s, i, a) == l[i] = "up" /\ r[i] /\ a \in h[i] /\ s[i][a] # 1
 Clock(t) ==
   since' = [i \in Inst |-> [a \in Alerts |->
               IF Elig(life', rdy', has', sv', i, a)
-                THEN IF since[i][a] # NONE /\ pos'[i] = pos[i] THEN since[i][a] ELSE t
+                THEN IF since[i][a] # NONE /\ pos'[i] = pos[i] /\ inforce'[i] = inforce[i] THEN since[i][a] ELSE t
                 ELSE NONE]]
 
 -----------------------------------------------------------------------------
@@ -161,11 +212,15 @@ Init ==
   /\ sv = [i \in Inst |-> [a \in Alerts |-> 0]]
   /\ due = [i \in Inst |-> [a \in Alerts |-> NONE]]
   /\ pend = [i \in Inst |-> [a \in Alerts |-> Idle]]
-  /\ nfl = [i \in Inst |-> [a \in Alerts |-> NONE]]
+  /\ nfl = [i \in Inst |-> NoLog]
   /\ snapN = nfl /\ snapS = sv
+  /\ cfg = [i \in Inst |-> InitCfg] /\ api = cfg
+  /\ file = [i \in Inst |-> [c |-> InitCfg, kind |-> "good"]]
+  /\ rcv = [i \in Inst |-> "-"] /\ grp = rcv
+  /\ inforce = cfg /\ prevc = cfg /\ chg = [i \in Inst |-> 0] /\ lastrl = [i \in Inst |-> "none"]
   /\ mt = [i \in Inst |-> Maint]
   /\ net = {}
-  /\ cnt = [start |-> 0, stop |-> 0, kill |-> 0, post |-> 0, sil |-> 0, exp |-> 0]
+  /\ cnt = [start |-> 0, stop |-> 0, kill |-> 0, post |-> 0, sil |-> 0, exp |-> 0, rl |-> 0]
   /\ last = [op |-> "init"]
   /\ pos = [i \in Inst |-> Cardinality({j \in InitUp : j < i})]
   /\ sent = << >>
@@ -180,9 +235,10 @@ MaxF(S, f(_)) == IF S = {} THEN NONE ELSE LET m == CHOOSE x \in S : \A y \in S :
 \* ---- environment ---------------------------------------------------------
 \* a start loads the data directory and joins: full-state exchange with every running instance
 Start(i) ==
-  /\ life[i] # "up" /\ cnt.start < Lim.start
+  /\ life[i] # "up" /\ cnt.start < Lim.start /\ file[i].kind = "good"
+  /\ cfg' = [cfg EXCEPT ![i] = file[i].c] /\ api' = [api EXCEPT ![i] = file[i].c] /\ UNCHANGED file
   /\ LET peers == Up
-         mN == [a \in Alerts |-> Max(snapN[i][a], MaxF(peers, LAMBDA j : nfl[j][a]))]
+         mN == [a \in Alerts |-> [c \in Cfgs |-> Max(snapN[i][a][c], MaxF(peers, LAMBDA j : nfl[j][a][c]))]]
          mS == [a \in Alerts |-> Max(snapS[i][a], MaxF(peers, LAMBDA j : sv[j][a]))]
      IN /\ nfl' = [j \in Inst |-> IF j = i \/ j \in peers THEN mN ELSE nfl[j]]
         /\ sv' = [j \in Inst |-> IF j = i \/ j \in peers THEN mS ELSE sv[j]]
@@ -195,7 +251,7 @@ Start(i) ==
   /\ mt' = [mt EXCEPT ![i] = now + Maint]
   /\ cnt' = [cnt EXCEPT !.start = @ + 1]
   /\ last' = [op |-> "start", i |-> i]
-  /\ BkStart(i)
+  /\ BkStart(i, file[i].c)
   /\ UNCHANGED <<now, snapN, snapS, net>>
 
 Down(i) ==
@@ -205,7 +261,7 @@ Down(i) ==
   /\ due' = [due EXCEPT ![i] = [a \in Alerts |-> NONE]]
   /\ pend' = [pend EXCEPT ![i] = [a \in Alerts |-> Idle]]
   /\ net' = {m \in net : m.to # i}
-  /\ UNCHANGED <<now, upAt, nfl, sv, mt>>
+  /\ UNCHANGED <<now, upAt, nfl, sv, mt, rlv>>
 
 \* clean stop: the maintenance goroutines write a last snapshot
 Stop(i) ==
@@ -224,7 +280,7 @@ Kill(i) ==
   /\ Down(i)
   /\ cnt' = [cnt EXCEPT !.kill = @ + 1]
   /\ last' = [op |-> "kill", i |-> i]
-  /\ BkDown(i, {a \in Alerts : told[i][a].t # NONE /\ snapN[i][a] >= told[i][a].t},
+  /\ BkDown(i, {a \in Alerts : told[i][a].t # NONE /\ snapN[i][a][told[i][a].c] >= told[i][a].t},
                {a \in Alerts : owe[i][a].lvl # 0 /\ snapS[i][a] = 1})
   /\ UNCHANGED <<snapN, snapS>>
 
@@ -233,34 +289,56 @@ Post(T, a) ==
   /\ T # {} /\ T \subseteq Up /\ cnt.post < Lim.post
   /\ \E i \in T : a \notin has[i]
   /\ has' = [i \in Inst |-> IF i \in T THEN has[i] \cup {a} ELSE has[i]]
-  /\ due' = [i \in Inst |-> IF i \in T /\ a \notin has[i] THEN [due[i] EXCEPT ![a] = now + GW] ELSE due[i]]
+  /\ due' = [i \in Inst |-> IF i \in T /\ a \notin has[i] /\ cfg[i] # "none" THEN [due[i] EXCEPT ![a] = now + GW] ELSE due[i]]
   /\ cnt' = [cnt EXCEPT !.post = @ + 1]
   /\ last' = [op |-> "post", to |-> T, a |-> a]
   /\ BkPost(\A i \in Inst : life[i] = "up" /\ rdy[i])
-  /\ UNCHANGED <<now, life, upAt, rdy, sv, pend, nfl, snapN, snapS, mt, net>>
+  /\ UNCHANGED <<now, life, upAt, rdy, sv, pend, nfl, snapN, snapS, mt, net, rlv>>
 
-Gossip(i, k, a, v) == \E d \in 0 .. MaxDelay :
-  net' = net \cup {[to |-> j, k |-> k, a |-> a, v |-> v, by |-> now + d] : j \in Up \ {i}}
+Gossip(i, k, a, c, v) == \E d \in 0 .. MaxDelay :
+  net' = net \cup {[to |-> j, k |-> k, a |-> a, c |-> c, v |-> v, by |-> now + d] : j \in Up \ {i}}
 
 \* POST /api/v2/silences on i with a matcher for alert a
 Silence(i, a) ==
   /\ life[i] = "up" /\ sv[i][a] = 0 /\ cnt.sil < Lim.sil
   /\ sv' = [sv EXCEPT ![i][a] = 1]
-  /\ Gossip(i, "s", a, 1)
+  /\ Gossip(i, "s", a, "-", 1)
   /\ cnt' = [cnt EXCEPT !.sil = @ + 1]
   /\ last' = [op |-> "silence", i |-> i, a |-> a]
   /\ BkAck(i, a, now)
-  /\ UNCHANGED <<now, life, upAt, rdy, has, due, pend, nfl, snapN, snapS, mt>>
+  /\ UNCHANGED <<now, life, upAt, rdy, has, due, pend, nfl, snapN, snapS, mt, rlv>>
 
 \* DELETE /api/v2/silence/{id}
 Expire(i, a) ==
   /\ life[i] = "up" /\ sv[i][a] = 1 /\ cnt.exp < Lim.exp
   /\ sv' = [sv EXCEPT ![i][a] = 2]
-  /\ Gossip(i, "s", a, 2)
+  /\ Gossip(i, "s", a, "-", 2)
   /\ cnt' = [cnt EXCEPT !.exp = @ + 1]
   /\ last' = [op |-> "expire", i |-> i, a |-> a]
   /\ BkExpire(a)
-  /\ UNCHANGED <<now, life, upAt, rdy, has, due, pend, nfl, snapN, snapS, mt>>
+  /\ UNCHANGED <<now, life, upAt, rdy, has, due, pend, nfl, snapN, snapS, mt, rlv>>
+
+\* the configuration file is rewritten with configuration c of the given kind and a reload is requested
+Restarted(i) ==   \* a new dispatcher: flushes in flight are cancelled, the groups are built again from the alerts
+  /\ pend' = [pend EXCEPT ![i] = [a \in Alerts |-> Idle]]
+  /\ due' = [due EXCEPT ![i] = [a \in Alerts |-> IF a \in has[i] THEN now ELSE NONE]]
+Reload(i, c, kind) ==
+  /\ life[i] = "up" /\ cnt.rl < Lim.rl
+  /\ file' = [file EXCEPT ![i] = [c |-> c, kind |-> kind]]
+  /\ cnt' = [cnt EXCEPT !.rl = @ + 1]
+  /\ last' = [op |-> "reload", i |-> i, c |-> c, kind |-> kind]
+  /\ CASE kind = "good" ->
+            /\ cfg' = [cfg EXCEPT ![i] = c] /\ api' = [api EXCEPT ![i] = c]
+            /\ Restarted(i)
+       [] kind = "badapply" /\ RL = "stopfirst" ->
+            /\ cfg' = [cfg EXCEPT ![i] = "none"] /\ UNCHANGED api
+            /\ pend' = [pend EXCEPT ![i] = [a \in Alerts |-> Idle]]
+            /\ due' = [due EXCEPT ![i] = [a \in Alerts |-> NONE]]
+       [] kind = "badapply" /\ RL = "apifirst" ->
+            /\ api' = [api EXCEPT ![i] = c] /\ UNCHANGED <<cfg, pend, due>>
+       [] OTHER -> UNCHANGED <<cfg, api, pend, due>>
+  /\ BkReload(i, c, kind = "good", now)
+  /\ UNCHANGED <<now, life, upAt, rdy, has, sv, nfl, snapN, snapS, mt, net>>
 
 \* ---- the program ---------------------------------------------------------
 Ready(i) ==
@@ -268,14 +346,14 @@ Ready(i) ==
   /\ rdy' = [rdy EXCEPT ![i] = TRUE]
   /\ last' = [op |-> "ready", i |-> i]
   /\ BkSame
-  /\ UNCHANGED <<now, life, upAt, has, sv, due, pend, nfl, snapN, snapS, mt, net, cnt>>
+  /\ UNCHANGED <<now, life, upAt, has, sv, due, pend, nfl, snapN, snapS, mt, net, cnt, rlv>>
 
 \* the wait stage is entered (the silence stage has passed): position x peer timeout from now
 Enter(i, a) == IF sv[i][a] = 1 THEN Idle ELSE [pend[i][a] EXCEPT !.st = "wait", !.at = now + PosOf(life, i) * PT]
 
 \* the group's timer fires: dispatcher deadline from the position now, timer re-armed
 FlushStart(i, a) ==
-  /\ life[i] = "up" /\ a \in has[i] /\ due[i][a] # NONE /\ due[i][a] <= now /\ pend[i][a].st = "idle"
+  /\ life[i] = "up" /\ cfg[i] # "none" /\ a \in has[i] /\ due[i][a] # NONE /\ due[i][a] <= now /\ pend[i][a].st = "idle"
   /\ LET f == [st |-> "settle", dl |-> now + Timeout(GI, PosOf(life, i) * PT), at |-> NONE, tick |-> due[i][a]]
      IN pend' = [pend EXCEPT ![i][a] =
                    IF ~rdy[i] THEN f
@@ -284,27 +362,27 @@ FlushStart(i, a) ==
   /\ due' = [due EXCEPT ![i][a] = now + GI]
   /\ last' = [op |-> "flush", i |-> i, a |-> a]
   /\ BkSame
-  /\ UNCHANGED <<now, life, upAt, rdy, has, sv, nfl, snapN, snapS, mt, net, cnt>>
+  /\ UNCHANGED <<now, life, upAt, rdy, has, sv, nfl, snapN, snapS, mt, net, cnt, rlv>>
 
 SettleDone(i, a) ==
   /\ life[i] = "up" /\ pend[i][a].st = "settle" /\ rdy[i]
   /\ pend' = [pend EXCEPT ![i][a] = Enter(i, a)]
   /\ last' = [op |-> "settled", i |-> i, a |-> a]
   /\ BkSame
-  /\ UNCHANGED <<now, life, upAt, rdy, has, sv, due, nfl, snapN, snapS, mt, net, cnt>>
+  /\ UNCHANGED <<now, life, upAt, rdy, has, sv, due, nfl, snapN, snapS, mt, net, cnt, rlv>>
 
 \* the wait is over within the deadline: Dedup; notify iff the log has no entry younger than repeat_interval
 Dedup(i, a) ==
-  /\ life[i] = "up" /\ pend[i][a].st = "wait" /\ pend[i][a].at <= now /\ pend[i][a].at <= pend[i][a].dl
+  /\ life[i] = "up" /\ cfg[i] # "none" /\ pend[i][a].st = "wait" /\ pend[i][a].at <= now /\ pend[i][a].at <= pend[i][a].dl
   /\ pend' = [pend EXCEPT ![i][a] = Idle]
-  /\ IF nfl[i][a] = NONE \/ nfl[i][a] < pend[i][a].tick - RI
-       THEN /\ nfl' = [nfl EXCEPT ![i][a] = now]
-            /\ IF "nflgossip" \in Off THEN UNCHANGED net ELSE Gossip(i, "n", a, now)
-            /\ BkSend(i, a, now, P)
+  /\ IF nfl[i][a][cfg[i]] = NONE \/ nfl[i][a][cfg[i]] < pend[i][a].tick - RI
+       THEN /\ nfl' = [nfl EXCEPT ![i][a][cfg[i]] = now]
+            /\ IF "nflgossip" \in Off THEN UNCHANGED net ELSE Gossip(i, "n", a, cfg[i], now)
+            /\ BkSend(i, a, cfg[i], now, P)
             /\ last' = [op |-> "dedup", i |-> i, a |-> a, sends |-> TRUE]
        ELSE /\ UNCHANGED <<nfl, net>> /\ BkSame
             /\ last' = [op |-> "dedup", i |-> i, a |-> a, sends |-> FALSE]
-  /\ UNCHANGED <<now, life, upAt, rdy, has, sv, due, snapN, snapS, mt, cnt>>
+  /\ UNCHANGED <<now, life, upAt, rdy, has, sv, due, snapN, snapS, mt, cnt, rlv>>
 
 \* the dispatcher deadline passes while the flush waits (settle stage or cluster wait)
 FlushTimeout(i, a) ==
@@ -313,7 +391,7 @@ FlushTimeout(i, a) ==
   /\ pend' = [pend EXCEPT ![i][a] = Idle]
   /\ last' = [op |-> "timeout", i |-> i, a |-> a]
   /\ BkSame
-  /\ UNCHANGED <<now, life, upAt, rdy, has, sv, due, nfl, snapN, snapS, mt, net, cnt>>
+  /\ UNCHANGED <<now, life, upAt, rdy, has, sv, due, nfl, snapN, snapS, mt, net, cnt, rlv>>
 
 Maintain(i) ==
   /\ life[i] = "up" /\ mt[i] <= now
@@ -322,28 +400,28 @@ Maintain(i) ==
   /\ mt' = [mt EXCEPT ![i] = now + Maint]
   /\ last' = [op |-> "maintain", i |-> i]
   /\ BkSame
-  /\ UNCHANGED <<now, life, upAt, rdy, has, sv, due, pend, nfl, net, cnt>>
+  /\ UNCHANGED <<now, life, upAt, rdy, has, sv, due, pend, nfl, net, cnt, rlv>>
 
 Deliver(m) ==
   /\ m \in net
   /\ net' = net \ {m}
-  /\ IF life[m.to] = "up" /\ m.k = "n" /\ nfl[m.to][m.a] < m.v
-       THEN nfl' = [nfl EXCEPT ![m.to][m.a] = m.v] ELSE UNCHANGED nfl
+  /\ IF life[m.to] = "up" /\ m.k = "n" /\ nfl[m.to][m.a][m.c] < m.v
+       THEN nfl' = [nfl EXCEPT ![m.to][m.a][m.c] = m.v] ELSE UNCHANGED nfl
   /\ IF life[m.to] = "up" /\ m.k = "s" /\ sv[m.to][m.a] < m.v
        THEN sv' = [sv EXCEPT ![m.to][m.a] = m.v] ELSE UNCHANGED sv
   /\ last' = [op |-> "deliver", to |-> m.to, k |-> m.k, a |-> m.a]
   /\ BkSame
-  /\ UNCHANGED <<now, life, upAt, rdy, has, due, pend, snapN, snapS, mt, cnt>>
+  /\ UNCHANGED <<now, life, upAt, rdy, has, due, pend, snapN, snapS, mt, cnt, rlv>>
 
 PushPull(x, y) ==
   /\ x < y /\ life[x] = "up" /\ life[y] = "up" /\ (nfl[x] # nfl[y] \/ sv[x] # sv[y])
-  /\ LET mN == [a \in Alerts |-> Max(nfl[x][a], nfl[y][a])]
+  /\ LET mN == [a \in Alerts |-> [c \in Cfgs |-> Max(nfl[x][a][c], nfl[y][a][c])]]
          mS == [a \in Alerts |-> Max(sv[x][a], sv[y][a])]
      IN /\ nfl' = [nfl EXCEPT ![x] = mN, ![y] = mN]
         /\ sv' = [sv EXCEPT ![x] = mS, ![y] = mS]
   /\ last' = [op |-> "pushpull", x |-> x, y |-> y]
   /\ BkSame
-  /\ UNCHANGED <<now, life, upAt, rdy, has, due, pend, snapN, snapS, mt, net, cnt>>
+  /\ UNCHANGED <<now, life, upAt, rdy, has, due, pend, snapN, snapS, mt, net, cnt, rlv>>
 
 \* ---- time ----------------------------------------------------------------
 Instants ==
@@ -360,13 +438,14 @@ Tick ==
   /\ now' = SetMin({x \in Instants : x > now} \cup {now + Quantum, MaxTime})
   /\ last' = [op |-> "tick"]
   /\ BkSame
-  /\ UNCHANGED <<life, upAt, rdy, has, sv, due, pend, nfl, snapN, snapS, mt, net, cnt>>
+  /\ UNCHANGED <<life, upAt, rdy, has, sv, due, pend, nfl, snapN, snapS, mt, net, cnt, rlv>>
 
 \* the environment acts between the program's instants (what is due at an instant happens first)
 Env ==
   \/ \E i \in Inst : Start(i) \/ Stop(i) \/ Kill(i)
   \/ \E a \in Alerts : Post(Up, a) \/ \E i \in Up : Post({i}, a)
   \/ \E i \in Inst, a \in Alerts : Silence(i, a) \/ Expire(i, a)
+  \/ \E i \in Inst, c \in Cfgs, kind \in {"good", "badload", "badapply"} : Reload(i, c, kind)
 Step ==
   \/ (~Urgent /\ Env)
   \/ \E i \in Inst : Ready(i) \/ Maintain(i)
@@ -376,7 +455,10 @@ Step ==
   \/ Tick
 
 \* every step re-derives the observed position and the eligibility clock
+Shown(i, c) == IF life'[i] = "up" /\ has'[i] # {} /\ c # "none" THEN c ELSE "-"
 Observe == /\ pos' = [i \in Inst |-> PosOf(life', i)]
+           /\ rcv' = [i \in Inst |-> Shown(i, api'[i])]
+           /\ grp' = [i \in Inst |-> Shown(i, cfg'[i])]
            /\ Clock(now')
 Next == Step /\ Observe
 Spec == Init /\ [][Next]_vars
@@ -391,13 +473,14 @@ Bound(p, k) == p.st + p.gw + 3 * (Max(p.gi, p.mint) + k * p.pt) + k * p.pt + p.s
 \* longer than the bound => the alert has been notified (by whichever instance)
 AtLeastOnceP(p) ==
   \A i \in Inst, a \in Alerts :
-    (since[i][a] # NONE /\ now - since[i][a] > Bound(p, pos[i])) => \E k \in 1 .. Len(sent) : sent[k].a = a
+    (since[i][a] # NONE /\ now - since[i][a] > Bound(p, pos[i]))
+      => \E k \in 1 .. Len(sent) : sent[k].a = a /\ sent[k].c = inforce[i]
 
 \* C08: healthy cluster => the same group state is not delivered twice within repeat_interval.
 \* Deliveries closer than dupmin[a] are the race the peer timeout exists for (the first delivery
 \* may still be in flight, its log entry on the way); no verdict when that is not below the peer timeout
 DupPairs(p) == {pr \in (1 .. Len(sent)) \X (1 .. Len(sent)) :
-                  /\ pr[1] < pr[2] /\ sent[pr[1]].a = sent[pr[2]].a
+                  /\ pr[1] < pr[2] /\ sent[pr[1]].a = sent[pr[2]].a /\ sent[pr[1]].c = sent[pr[2]].c
                   /\ p.dupmin[sent[pr[2]].a] < p.pt
                   /\ sent[pr[2]].t - sent[pr[1]].t > p.dupmin[sent[pr[2]].a] /\ sent[pr[2]].t - sent[pr[1]].t <= p.dupmax}
 NoDuplicateP(p) == (healthy /\ Cardinality(Inst) > 1) => DupPairs(p) = {}
@@ -413,7 +496,21 @@ NoRepeatP == \A k \in 1 .. Len(sent) : ~sent[k].rep
 \* C08: an instance is ready (its flushes pass the settle stage) once the settle time is over
 ReadyP(p) == \A i \in Inst : (life[i] = "up" /\ now - upAt[i] > p.st + p.rslack) => rdy[i]
 
+\* C17: every notification goes to the receiver of the configuration that has to be in force - the
+\* start's or the last ACCEPTED reload's: a refused reload changes nothing, an accepted one takes effect
+\* (together with AtLeastOnceP, whose obligation is a delivery to that receiver)
+RoutedByConfigInForceP == \A k \in 1 .. Len(sent) : sent[k].ok
+
+\* C17: the status API shows the configuration in force ("-": not observed yet)
+StatusShowsConfigInForceP == \A i \in Inst : life[i] = "up" => api[i] \in {inforce[i], "-"}
+
+\* C07: the receivers the API shows for the alerts and the dispatcher's groups agree
+ReceiversAgreeP == \A i \in Inst : (life[i] = "up" /\ rcv[i] # "-" /\ grp[i] # "-") => rcv[i] = grp[i]
+
 AtLeastOnce == AtLeastOnceP(P)
+RoutedByConfigInForce == RoutedByConfigInForceP
+StatusShowsConfigInForce == StatusShowsConfigInForceP
+ReceiversAgree == ReceiversAgreeP
 NoDuplicateWhenHealthy == NoDuplicateP(P)
 SilenceSurvivesRestart == SilenceSurvivesP
 NoRepeatAfterRestart == NoRepeatP
